@@ -29,7 +29,7 @@ LEVEL = "fault_enumeration"
 SHARDS = {"quick": 4, "thorough": 16}
 SHARD_TIMEOUT = {"quick": 900, "thorough": 3400}
 REQUIRED = ["wsgi-rendezvous", "wsgi-yield-injection", "asgi-virtual-time", "cleanup-exactly-once", "no-leaked-thread", "no-pending-task",
-            "delivered-prefix", "bounded-return", "deadlock-analysis-armed", "producer-steps-after-close", "queued-relay", "busy-producer", "asgi-fault-combinations", "overlapped-clients"]
+            "delivered-prefix", "bounded-return", "deadlock-analysis-armed", "producer-steps-after-close", "queued-relay", "busy-producer", "asgi-fault-combinations", "overlapped-clients", "large-chunks"]
 RULE = ("WSGI SendEventResponse rendezvous scenarios: producer length n in 0..4 x close point k (before first next, after item 1..n, after exhaustion) x producer state at "
         "close {exhausted, mid-step then yields / returns / raises, ahead (item ready, relay blocked in put)} x ping {20 ms, never}; WSGI yield-injection scenarios: random "
         "n<=4, close point, producer delays 0-3 ms, producer raising, ping 2 ms / never, LINE-event pauses p=0.4; WSGI StreamResponse early close; ASGI StreamResponse and "
@@ -602,6 +602,42 @@ class PlainAsyncIterable:
         return self.make(self.i - 1)
 
 
+def asgi_large_chunks(ctx, cls_name, sizes):
+    """chunks / events whose encoded length sits at and around multiples of 64 KiB: delivered once, byte for byte"""
+    from baize import asgi
+    sse = cls_name == "SendEventResponse"
+    loop = drivers.VLoop(max_iterations=200_000)
+    sent = []
+
+    async def gen():
+        for i, n in enumerate(sizes):
+            yield {"data": chr(97 + i % 26) * n} if sse else bytes([97 + i % 26]) * n
+
+    async def receive():
+        await asyncio.Event().wait()
+
+    async def send(m):
+        if m["type"] == "http.response.body":
+            sent.append(bytes(m.get("body", b"")))
+
+    async def main():
+        await getattr(asgi, cls_name)(gen(), **({"ping_interval": 1000.0} if sse else {}))(drivers.to_scope(drivers.Req()), receive, send)
+    case = {"class": "asgi." + cls_name, "chunk_sizes": list(sizes)}
+    ctx.mon("large-chunks")
+    try:
+        loop.run_until_complete(asyncio.wait_for(main(), 10_000))
+    except Exception as e:
+        ctx.violation(f"asgi-large-chunks|exception|{type(e).__name__}", case, repr(e)[:200])
+        return
+    finally:
+        loop.close()
+    body = b"".join(sent)
+    want = b"".join((b"data: " + bytes([97 + i % 26]) * n + b"\n\n") if sse else bytes([97 + i % 26]) * n for i, n in enumerate(sizes))
+    if body != want:
+        ctx.violation(f"{'asgi-sse' if sse else 'asgi-stream'}|large-chunk-not-delivered-exactly-once", case,
+                      f"{len(body)} bytes delivered, {len(want)} yielded; event lengths {[len(x) for x in sent][:12]}")
+
+
 class StarvationGuard(BaseException):
     pass
 
@@ -820,6 +856,15 @@ def run(ctx):
                 ctx.case_enum(True)
     else:
         ctx.mon("busy-producer", 0)
+    if ctx.shard == 0:
+        K = 65536
+        for cls in ("StreamResponse", "SendEventResponse"):
+            off = 8 if cls == "SendEventResponse" else 0  # "data: " + "\n\n"
+            for sizes in ((K - off,), (2 * K - off,), (3 * K - off, 5), (K - off - 1, K - off + 1), (2 * K - off, 2 * K - off), (4 * K - off, 0 if off == 0 else 1, K - off)):
+                asgi_large_chunks(ctx, cls, sizes)
+                ctx.case_enum(True)
+    else:
+        ctx.mon("large-chunks", 0)
     ctx.extra["asgi_distinct_event_order_signatures"] = len(sigs)
     ctx.sample("asgi-grid", {"class": "asgi.SendEventResponse", "n": 3, "producer_delay": 1.5, "send_delay": 0.5, "disconnect_at": 1.001, "ping": 1.0, "raise_at": None})
     # ---------------- WSGI StreamResponse
